@@ -63,5 +63,5 @@ require (
 	gopkg.in/yaml.v3 v3.0.1 // indirect
 )
 
-replace github.com/hydraide/hydraide => /repo
-replace github.com/hydraide/hydraide/sdk/go/hydraidego/v3 => /repo/sdk/go/hydraidego
+replace github.com/hydraide/hydraide => /tmp/agents/a14/repo
+replace github.com/hydraide/hydraide/sdk/go/hydraidego/v3 => /tmp/agents/a14/repo/sdk/go/hydraidego
